@@ -34,6 +34,9 @@ var (
 		"a/b.example", "a.example:80:80", "[zz::1]", "m\u00fcnchen.example", "a.example:-1", "[::1]:",
 		"[::1]x", "a.example:123456", "[]", "[1]", "a.example/", "a.example:80 ", " a.example", "a.example\n",
 		"@a.example", "[2001:db8::1]:http", "a.example:+80", "[fe80::1%eth0]",
+		// non-ASCII letters whose code point ends in the byte of an ASCII letter,
+		// digit, dot or hyphen (U+0430 -> '0', U+0161 -> 'a', U+212E -> '.', U+4E2D -> '-')
+		"ex\u0430mple.com", "\u0161.example", "a\u212eexample", "\u4e2d.example:8448",
 	}
 	dubiousPool = []string{"[10.0.0.1]", "[:::::]", "[1.2]", "[dead.beef]:8448"}
 )
